@@ -16,7 +16,7 @@ Definition RD (secs : list rsection) (g : option string) : rdesc :=
    V terms dominated the cost of the check):
      status|sections/bundle/S|transceivers
    section     = k (=mid | ~) , 0|9 , directions , c|- s|- f|-
-   transceiver = mid , k , direction *)
+   transceiver = mid , k , direction , currentDirection , currentRemoteDirection , s|- (sender) *)
 Definition kind_ch (k : kind) : string :=
   match k with KAudio => "a" | KVideo => "v" | KApplication => "p" | KOther => "o" end.
 Definition dir_ab (d : dir) : string :=
@@ -36,8 +36,10 @@ Definition S_lsection (x : lsection) : string :=
   flag (l_creds x) "c" ++ flag (l_setup x) "s" ++ flag (l_fp x) "f".
 Definition S_ldesc (d : ldesc) : string :=
   join ";" (map S_lsection (l_secs d)) ++ "/" ++ join " " (l_bundle d) ++ "/" ++ flag (l_fp_session d) "S".
+Definition odir_ab (d : option dir) : string := match d with Some x => dir_ab x | None => "un" end.
 Definition S_tr (t : tr) : string :=
-  t_mid t ++ "," ++ kind_ch (kind_of (t_kind t)) ++ "," ++ dir_ab (t_dir t).
+  t_mid t ++ "," ++ kind_ch (kind_of (t_kind t)) ++ "," ++ dir_ab (t_dir t) ++ "," ++
+  odir_ab (t_cur t) ++ "," ++ odir_ab (t_rcur t) ++ "," ++ flag (t_sender t) "s".
 
 Definition S_status {A} (r : result A) : string :=
   match r with Ok _ => "ok" | Err e => e | Panic => "panic" end.
